@@ -1,6 +1,7 @@
 package main
 
 import (
+	"time"
 	"context"
 	"fmt"
 	"go/types"
@@ -556,9 +557,20 @@ func decide(name, q string, timeout int, thorough bool) OblResult {
 		}()
 	}
 	var full, weak *SolveResult
+	var grace <-chan time.Time
+collect:
 	for i := 0; i < n; i++ {
-		a := <-ch
+		var a ans
+		select {
+		case a = <-ch:
+		case <-grace:
+			// thorough tier: the other variants had their extra time to contradict a proof; go on without them
+			break collect
+		}
 		r := a.r
+		if r.Status == "unsat" && thorough && grace == nil {
+			grace = time.After(30 * time.Second)
+		}
 		if a.qf {
 			weak = &r
 		} else {
@@ -571,6 +583,10 @@ func decide(name, q string, timeout int, thorough bool) OblResult {
 			}
 			return or
 		}
+	}
+	if full == nil {
+		// (only possible after the grace period: the proof came from a weakened variant)
+		full = &SolveResult{Status: "unknown"}
 	}
 	switch {
 	case full.Status == "unsat" || (weak != nil && weak.Status == "unsat"):
